@@ -270,6 +270,58 @@ func c04units(tier string) []mc.Unit {
 		r.AddTransitions(cnt)
 		r.AddNontrivial(cnt)
 	}})
+	// long inputs at lengths around powers of two and decimal round numbers (an enumerated family, not a sample):
+	// rotation by a few offsets, strand, case and spelling must leave the hash unchanged
+	for _, n := range shLongLengths(tier) {
+		n := n
+		us = append(us, mc.Unit{Name: fmt.Sprintf("long/n=%d", n), Weight: n/500 + 1, Run: func(r *mc.Recorder) {
+			var cnt int64
+			for _, fam := range []string{"lcg", "periodic"} {
+				s := shLong(n, fam)
+				for _, f := range shAllFlags {
+					in := s
+					if f.typ == "RNA" {
+						in = toU(s)
+					}
+					h0, err := seqhash.Hash(in, f.typ, f.circ, f.ds)
+					if err != nil {
+						r.Failf("accepted", fmt.Sprintf("%s sequence of %d bases %s", fam, n, f), nil, "accepted", err.Error())
+						continue
+					}
+					variants := map[string]string{"lower case": strings.ToLower(in)}
+					if f.circ {
+						for _, k := range []int{1, 7, n / 2, n - 1} {
+							if k > 0 && k < n {
+								variants[fmt.Sprintf("rotation %d", k)] = in[k:] + in[:k]
+							}
+						}
+					}
+					if f.ds {
+						rc := shRC(s)
+						if f.typ == "RNA" {
+							rc = toU(rc)
+						}
+						variants["reverse complement"] = rc
+						if f.circ && n > 3 {
+							variants["rotated reverse complement"] = rc[3:] + rc[:3]
+						}
+					}
+					for what, v := range variants {
+						var h string
+						if p := catch(func() { h, err = seqhash.Hash(v, f.typ, f.circ, f.ds) }); p != "" || err != nil || h != h0 {
+							r.Failf("long-"+strings.Fields(what)[0], fmt.Sprintf("%s sequence of %d bases, %s, %s", fam, n, what, f), nil, h0, fmt.Sprint(h, err, p))
+						}
+						cnt++
+					}
+				}
+			}
+			r.Eval(cnt)
+			r.AddStates(cnt)
+			r.AddTransitions(cnt)
+			r.AddNontrivial(cnt)
+			r.Bound("long", fmt.Sprintf("two sequence families at lengths %v", shLongLengths(tier)))
+		}})
+	}
 	// RNA spelling: Hash(U-spelling, RNA) == Hash(T-spelling, DNA) except the type letter
 	rnaMax := tier2(tier, 7, 9)
 	for n := 0; n <= rnaMax; n++ {
@@ -324,6 +376,64 @@ func c04units(tier string) []mc.Unit {
 }
 
 const c11codesSH = "ACGTRYSWKMBDHVN"
+
+func shLongLengths(tier string) []int {
+	l := []int{255, 256, 257, 1000, 4095, 4096, 4097, 9999}
+	if tier == "thorough" {
+		l = append(l, 32767, 32768, 32769, 65535, 65536, 65537, 70001, 99999, 100000)
+	} else {
+		l = append(l, 65535, 65537, 70001)
+	}
+	return l
+}
+
+// shLong: a deterministic long ACGT sequence: pseudo-random (lcg) or a period-7 word with one changed letter
+func shLong(n int, fam string) string {
+	b := make([]byte, n)
+	if fam == "lcg" {
+		x := uint32(2024)
+		for i := range b {
+			x = x*1664525 + 1013904223
+			b[i] = "ACGT"[(x>>25)%4]
+		}
+	} else {
+		for i := range b {
+			b[i] = "GATTACA"[i%7]
+		}
+		b[n/3] = 'C'
+	}
+	return string(b)
+}
+
+// linear-time least rotation (two pointers), validated against brute force in the C12 harness
+func shMinRotFast(s string) string {
+	n := len(s)
+	if n == 0 {
+		return s
+	}
+	i, j, k := 0, 1, 0
+	for i < n && j < n && k < n {
+		a, b := s[(i+k)%n], s[(j+k)%n]
+		if a == b {
+			k++
+			continue
+		}
+		if a > b {
+			i += k + 1
+		} else {
+			j += k + 1
+		}
+		if i == j {
+			j++
+		}
+		k = 0
+	}
+	st := i
+	if j < i {
+		st = j
+	}
+	return s[st:] + s[:st]
+}
 
 // --- C05: separation, form, rejection ------------------------------------------
 
@@ -386,6 +496,47 @@ func c05units(tier string) []mc.Unit {
 				c05table(r, c11codesSH, n, f)
 			}})
 		}
+	}
+	// long inputs: the value is still v1_<tag>_<BLAKE3 of the canonical representative> (linear-time oracle)
+	for _, n := range shLongLengths(tier) {
+		n := n
+		us = append(us, mc.Unit{Name: fmt.Sprintf("long/n=%d", n), Weight: n/500 + 1, Run: func(r *mc.Recorder) {
+			var cnt int64
+			for _, fam := range []string{"lcg", "periodic"} {
+				s := shLong(n, fam)
+				for _, f := range shAllFlags {
+					c := s
+					if f.circ {
+						c = shMinRotFast(s)
+					}
+					if f.ds {
+						o := shRC(s)
+						if f.circ {
+							o = shMinRotFast(o)
+						}
+						if o < c {
+							c = o
+						}
+					}
+					d := blake3.Sum256([]byte(c))
+					want := "v1_" + shTag(f.typ, f.circ, f.ds) + "_" + hex.EncodeToString(d[:])
+					in := strings.ToLower(s)
+					if f.typ == "RNA" {
+						in = toU(s)
+					}
+					var h string
+					var err error
+					if p := catch(func() { h, err = seqhash.Hash(in, f.typ, f.circ, f.ds) }); p != "" || err != nil || h != want {
+						r.Failf("form", fmt.Sprintf("%s sequence of %d bases %s", fam, n, f), nil, want, fmt.Sprint(h, err, p))
+					}
+					cnt++
+				}
+			}
+			r.Eval(cnt)
+			r.AddStates(cnt)
+			r.AddTransitions(cnt)
+			r.AddNontrivial(cnt)
+		}})
 	}
 	// across flags and types: same sequence, different declaration => different hash
 	us = append(us, mc.Unit{Name: "cross-flags", Weight: 20, Run: func(r *mc.Recorder) {
